@@ -839,3 +839,62 @@ Proof.
   unfold gen_get_boost_chain_ids. rewrite Hc. cbn [bind]. rewrite Hinc. cbn [py_next_iter bind].
   rewrite (rev_last_head p Hne), Hla. cbn [py_remove]. rewrite Z.eqb_refl. reflexivity.
 Qed.
+
+Lemma att_perm tr : Permutation (att tr) (leaves tr).
+Proof. destruct tr; cbn [att leaves]; [reflexivity|apply sort_perm]. Qed.
+
+Lemma leaves_nonempty tr : leaves tr <> [].
+Proof.
+  induction tr as [i|i a IHa b IHb]; cbn [leaves]; [discriminate|].
+  destruct (leaves a); [contradiction|discriminate].
+Qed.
+
+Lemma tree_eq_leaf0 (tr : tree) : tr = Leaf 0 \/ tr <> Leaf 0.
+Proof. destruct tr as [i|i a b]; [destruct (Z.eq_dec i 0) as [->|]; [now left|right; congruence]|right; discriminate]. Qed.
+
+Lemma is_opp_leaf0 s : (forall x, In x (leaves s) -> 0 < x) -> is_opp (Leaf 0) s = false.
+Proof.
+  intros Hpos. unfold is_opp. cbn [att].
+  assert (Hall : forall x, In x (att s) -> 0 < x).
+  { intros x Hx. apply Hpos. eapply Permutation_in; [apply att_perm|exact Hx]. }
+  destruct (att s) as [|h r] eqn:E.
+  - exfalso. apply (leaves_nonempty s). apply Permutation_nil. rewrite <- E. apply att_perm.
+  - cbn [lex_ltb]. specialize (Hall h (or_introl eq_refl)).
+    destruct (Z.ltb_spec h 0); [lia|]. destruct (Z.ltb_spec 0 h); [reflexivity|lia].
+Qed.
+
+(** docstring rule 1 of is_opposite_helicity_state ("state 0 is never an opposite helicity state"), for the code *)
+Theorem gen_state_zero_never_opposite t : forall tr, tree_agrees t tr -> NoDup (leaves tr) ->
+  (forall x, In x (leaves tr) -> 0 <= x) -> In 0 (leaves tr) -> tr <> Leaf 0 ->
+  gen_is_opposite_helicity_state t 0 = Ok false.
+Proof.
+  induction tr as [i|i a IHa b IHb]; intros Hag Hnd Hpos Hin Hne.
+  - cbn [leaves] in Hin. destruct Hin as [->|[]]. contradiction.
+  - cbn [tree_agrees] in Hag. destruct Hag as (_ & _ & _ & _ & _ & Oa & Ob & Aa & Ab).
+    cbn [leaves] in *.
+    assert (Hna : NoDup (leaves a)) by (eapply NoDup_app_l; eauto).
+    assert (Hnb : NoDup (leaves b)) by (eapply NoDup_app_r; eauto).
+    assert (Hdis : forall x, In x (leaves a) -> In x (leaves b) -> False).
+    { intros x Ha Hb. revert Hnd. clear -Ha Hb. induction (leaves a) as [|y l IH]; [contradiction|].
+      simpl. intros H. inversion H as [|? ? Hni Hnd]; subst. destruct Ha as [->|Ha]; [|now apply IH].
+      apply Hni. apply in_app_iff. now right. }
+    apply in_app_iff in Hin.
+    destruct (tree_eq_leaf0 a) as [Ea|Ea]; [| destruct (tree_eq_leaf0 b) as [Eb|Eb]].
+    + subst a. cbn [eid] in Oa. rewrite Oa. f_equal. apply is_opp_leaf0.
+      intros x Hx. assert (0 <= x) by (apply Hpos; apply in_app_iff; now right).
+      assert (x <> 0) by (intros ->; apply (Hdis 0); [now left|exact Hx]). lia.
+    + subst b. cbn [eid] in Ob. rewrite Ob. f_equal. apply is_opp_leaf0.
+      intros x Hx. assert (0 <= x) by (apply Hpos; apply in_app_iff; now left).
+      assert (x <> 0) by (intros ->; apply (Hdis 0); [exact Hx|now left]). lia.
+    + destruct Hin as [Hin|Hin].
+      * apply IHa; auto. intros x Hx. apply Hpos. apply in_app_iff. now left.
+      * apply IHb; auto. intros x Hx. apply Hpos. apply in_app_iff. now right.
+Qed.
+
+Theorem gen_state_zero_never_opposite_topo t tr : wf_ids t -> tree_of_topo t = Some tr -> NoDup (leaves tr) ->
+  (forall x, In x (leaves tr) -> 0 <= x) -> In 0 (leaves tr) -> tr <> Leaf 0 ->
+  gen_is_opposite_helicity_state t 0 = Ok false.
+Proof.
+  intros Hwf Ht Hnd. apply gen_state_zero_never_opposite; [|exact Hnd].
+  exact (gen_helpers_refine_Kin t tr Hwf Ht Hnd).
+Qed.
